@@ -748,6 +748,24 @@ class Processor:
         - `YAMLPathException` when the operation would destroy the entire
            document
         """
+        # Refuse to delete the document root BEFORE deleting anything else
+        for check_nc in delete_nodes:
+            check_node = check_nc.node
+            if isinstance(check_node, NodeCoords) or (
+                isinstance(check_node, list) and len(check_node) > 0
+                and isinstance(check_node[0], NodeCoords)
+            ):
+                continue
+            if not isinstance(
+                check_nc.parent, (dict, list, CommentedSet, set)
+            ):
+                raise NoDocumentYAMLPathException(
+                    "Refusing to delete the entire document!  Ensure the"
+                    " source document is YAML, JSON, or compatible and the"
+                    " target nodes do not include the document root.",
+                    str(check_nc.path)
+                )
+
         # pylint: disable=locally-disabled,too-many-nested-blocks
         for delete_nc in reversed(delete_nodes):
             node = delete_nc.node
